@@ -405,6 +405,17 @@ def install(prog):
         if not is_sym(x): return x < 0 if k == 'is_negative' else x > 0
         return (x < 0) if k == 'is_negative' else (x > 0)
 
+    @M(r'BigInt::bits')
+    def _(it, m, a):
+        """number of bits of the magnitude (0 for zero)"""
+        x = deref(a[0]).v
+        if not is_sym(x): return abs(x).bit_length()
+        mag = z3.If(x < 0, -x, x)
+        r = z3.BitVecVal(0, 64)
+        for k in range(0, 70):                      # the bignum model is bounded by 2^66
+            r = z3.If(z3.Extract(k, k, mag) == 1, z3.BitVecVal(k + 1, 64), r)
+        return z3.simplify(r)
+
     @M(r'<BigInt as Clone>::clone')
     def _(it, m, a): return Big(deref(a[0]).v)
 
